@@ -437,6 +437,32 @@ impl C05 {
         };
         claim!(cat.as_bytes() == &strip(shown.as_bytes())[..], "concatenated hunk Displays differ from the diff's Display");
         claim!(catw == strip(&w), "concatenated UnifiedDiffHunk::to_writer output differs from UnifiedDiff::to_writer");
+        // one formatter object rendered, reconfigured, rendered again: every rendering must be that
+        // of a fresh formatter with the settings in force at the time
+        let mut has_header = s.header;
+        for (r2, h2) in [(0usize, false), (s.radius + 1, false), (1, true), (s.radius, false)] {
+            ud.context_radius(r2);
+            if h2 {
+                ud.header("a.txt", "b.txt");
+            }
+            let mut again: Vec<u8> = vec![];
+            ud.to_writer(&mut again).unwrap();
+            let shown2 = ud.to_string();
+            let mut fresh = diff.unified_diff();
+            fresh.context_radius(r2);
+            has_header |= h2;
+            if has_header {
+                fresh.header("a.txt", "b.txt");
+            }
+            let mut fw: Vec<u8> = vec![];
+            fresh.to_writer(&mut fw).unwrap();
+            claim!(again == fw, "a formatter rendered at radius {} and then set to radius {} writes {:?}, a fresh formatter at radius {} writes {:?}", s.radius, r2, String::from_utf8_lossy(&again), r2, String::from_utf8_lossy(&fw));
+            claim!(shown2 == String::from_utf8_lossy(&again), "Display and to_writer of a reconfigured formatter differ");
+            if let Err(e) = check_udiff(&again, &old_lines, &new_lines, r2, has_header, inputs_equal) {
+                engine::fail(format!("reconfigured formatter (radius {} after {}): {} | output {:?} | ops {:?}", r2, s.radius, e, String::from_utf8_lossy(&again), ops));
+            }
+        }
+        engine::witness("paths_with_a_reconfigured_formatter");
         if nh >= 2 {
             engine::witness("paths_with_two_or_more_hunks");
         }
@@ -617,13 +643,13 @@ impl Prop for C05 {
                 "similar::group_diff_ops",
                 "similar::Change::{to_string_lossy, missing_newline, as_bytes via DiffableStr}",
             ],
-            bounds: format!("line texts of 0..={} lines per side (1-character contents, one 2-character variant), terminators LF / CRLF / CR (same on both sides, or LF against CRLF / CR) and texts whose lines cycle through LF, CRLF, CR, last line terminated or not, x 3 algorithms x context radius {} x {{no header, header, header + byte mode with a 0xFF byte in every line}}; the diff stage is symbolic (all equality patterns of the lines); the rendering stage has no data-dependent branch and is evaluated on one model of each path, parsed and applied by an independent strict parser; the writer output is taken through a Vec<u8> and through writers that implement only write() and accept all / 1 / 3 bytes per call; plus texts of more than 100 lines (TextDiffConfig's interning branch): 99..101 pairwise-different LF-terminated lines with a window of up to {} lines per side at the middle / end{} of the text, each window line a fresh symbolic line or a copy of the line just before / after the window, radius 0 / 1", match tier { Tier::Quick => 4, Tier::Thorough => 5 }, match tier { Tier::Quick => "0..=2", Tier::Thorough => "0..=3" }, match tier { Tier::Quick => 2, Tier::Thorough => 3 }, match tier { Tier::Quick => "", Tier::Thorough => " / front / near either end" }),
+            bounds: format!("line texts of 0..={} lines per side (1-character contents, one 2-character variant), terminators LF / CRLF / CR (same on both sides, or LF against CRLF / CR) and texts whose lines cycle through LF, CRLF, CR, last line terminated or not, x 3 algorithms x context radius {} x {{no header, header, header + byte mode with a 0xFF byte in every line}}; the diff stage is symbolic (all equality patterns of the lines); the rendering stage has no data-dependent branch and is evaluated on one model of each path, parsed and applied by an independent strict parser; after its first rendering the same formatter object is set to radius 0, radius+1, 1 (+ header) and back and must render exactly what a fresh formatter with those settings renders (parsed and applied again); the writer output is taken through a Vec<u8> and through writers that implement only write() and accept all / 1 / 3 bytes per call; plus texts of more than 100 lines (TextDiffConfig's interning branch): 99..101 pairwise-different LF-terminated lines with a window of up to {} lines per side at the middle / end{} of the text, each window line a fresh symbolic line or a copy of the line just before / after the window, radius 0 / 1", match tier { Tier::Quick => 4, Tier::Thorough => 5 }, match tier { Tier::Quick => "0..=2", Tier::Thorough => "0..=3" }, match tier { Tier::Quick => 2, Tier::Thorough => 3 }, match tier { Tier::Quick => "", Tier::Thorough => " / front / near either end" }),
             outside: "more lines; other mixes of terminators within one text than the LF/CRLF/CR cycle; missing_newline_hint(false); non-line diffs rendered as unified diffs; str/[u8] tokenization itself (C06)".into(),
             assumptions: vec![
                 "rendering copies line bytes without looking at them (true of the code: write_all(as_bytes) / to_string_lossy), so one model per path is exhaustive for that path".into(),
                 "H2 swap-repair switch is used only to attribute a failing case to the known finding at the compaction swap".into(),
             ],
-            required_witnesses: vec!["paths_above_the_100_line_threshold", "paths_with_a_hunk", "paths_with_two_or_more_hunks", "paths_with_equal_inputs", "paths_with_missing_newline_marker", "paths_that_took_a_compaction_swap"],
+            required_witnesses: vec!["paths_above_the_100_line_threshold", "paths_with_a_hunk", "paths_with_two_or_more_hunks", "paths_with_equal_inputs", "paths_with_missing_newline_marker", "paths_that_took_a_compaction_swap", "paths_with_a_reconfigured_formatter"],
             rule: "one state = one explored path (equality pattern of the lines) of one shape".into(),
         }
     }
